@@ -54,6 +54,15 @@ for _lib, _core in (('op_numlessthan', 'OP_LESSTHAN'), ('op_numgreaterthan', 'OP
     METHOD_OP[_lib] = OP[_core]
 LT_FAMILY = frozenset(OP[n] for n in ('OP_LESSTHAN', 'OP_GREATERTHAN', 'OP_LESSTHANOREQUAL', 'OP_GREATERTHANOREQUAL'))
 IF_METHODS = ('op_if', 'op_notif')
+# The opcode set the pinned tree implements (074a788).  "Implemented" is not taken from the tree under test: a method
+# that disappears must be reported, not excused as "not implemented".
+BASELINE_METHODS = (
+    'op_0notequal op_1add op_1sub op_2drop op_2dup op_2over op_2rot op_2swap op_3dup op_abs op_add op_booland op_boolor '
+    'op_checklocktimeverify op_checkmultisig op_checkmultisigverify op_checksequenceverify op_checksig op_checksigverify '
+    'op_depth op_drop op_dup op_equal op_equalverify op_hash160 op_hash256 op_if op_ifdup op_max op_min op_negate op_nip '
+    'op_nop op_nop1 op_nop10 op_nop4 op_nop5 op_nop6 op_nop7 op_nop8 op_nop9 op_not op_notif op_numequal op_numequalverify '
+    'op_numgreaterthan op_numgreaterthanorequal op_numlessthan op_numlessthanorequal op_numnotequal op_over op_pick '
+    'op_return op_ripemd160 op_roll op_rot op_sha1 op_sha256 op_size op_sub op_swap op_tuck op_verify op_within').split()
 ARGNAMES = {'op_checksig': ('message', '_'), 'op_checksigverify': ('message', '_'),
             'op_checkmultisig': ('message', 'data'), 'op_checkmultisigverify': ('message', 'data'),
             'op_checklocktimeverify': ('sequence', 'tx_locktime'), 'op_checksequenceverify': ('sequence', 'version'),
@@ -727,6 +736,14 @@ def step_methods(col):
     return [n for n in sorted(METHOD_OP) if n in mon.Stack.__dict__]
 
 
+def check_baseline(col):
+    mon = monitor(col)
+    for name in BASELINE_METHODS:
+        col.probe('baseline-method')
+        if not callable(getattr(mon.Stack, name, None)):
+            col.violation(None, 'Stack.%s, implemented in the pinned tree, is missing' % name, {'kind': 'baseline', 'op': name}, 'missing', 'present')
+
+
 def step_variants(name):
     if name == 'op_checklocktimeverify':
         return CLTV_ENVS
@@ -974,15 +991,16 @@ def _raw64(kr, i, digest):
 
 # ====================================================================== program oracle
 def implemented_by_dispatch(Stack):
-    """Opcodes whose consensus name, lower-cased, is a Stack method - what the dispatch loop can reach."""
+    """Opcodes whose consensus name, lower-cased, is a Stack method - what the dispatch loop can reach - in the pinned
+    baseline or in the tree under test."""
     out = set()
     for code, name in si.OPNAME.items():
-        if code > 0x60 and hasattr(Stack, name.lower()):
+        if code > 0x60 and (hasattr(Stack, name.lower()) or name.lower() in BASELINE_METHODS):
             out.add(code)
     return out
 
 
-def run_program(cmds, message, env, col, cls, meta=None):
+def run_program(cmds, message, env, col, cls):
     """Evaluate with the real library and with the reference; attribute any disagreement."""
     mon = monitor(col)
     from bitcoinlib.scripts import Script
@@ -1538,6 +1556,8 @@ def replay(case, col):
         if case.get('commands') is not None:
             args['commands'] = cmds_unjson(case['commands'])
         exec_step(case['op'], [bytes.fromhex(x) for x in (case.get('stack') or [])], args, col)
+    elif case.get('kind') == 'baseline':
+        check_baseline(col)
     elif case.get('kind') == 'program':
         env = dict(case.get('env') or {})
         if isinstance(env.get('redeemscript'), str):
@@ -1567,7 +1587,13 @@ def run_shard(spec, col):
         return
     col.require('step', 1000)
     col.require('program', 50)
+    col.require('program-valid', 10)
+    col.require('program-consensus-valid', 10)
+    col.require('exhaustive-stacks', 1)
     monitor(col)
+    check_baseline(col)
+    for name in step_methods(col):
+        col.require('step:' + name, 1)
     run_exhaustive(spec, col)
     run_targeted(spec, col)
     run_lifted(spec, col)
